@@ -382,6 +382,18 @@ func collectTagCountsFromResolved(resolved *include.ResolvedJournal) map[string]
 	return counts
 }
 
+// DeclarationsOf returns the accounts and commodities declared anywhere in a
+// resolved include tree.
+func DeclarationsOf(resolved *include.ResolvedJournal) ExternalDeclarations {
+	if resolved == nil {
+		return ExternalDeclarations{}
+	}
+	return ExternalDeclarations{
+		Accounts:    collectDeclaredAccountsFromResolved(resolved),
+		Commodities: collectDeclaredCommoditiesFromResolved(resolved),
+	}
+}
+
 func collectDeclaredAccountsFromResolved(resolved *include.ResolvedJournal) map[string]bool {
 	declared := make(map[string]bool)
 	if resolved.Primary != nil {
